@@ -61,9 +61,21 @@ pub enum E1 {
     F(N, N),
 }
 
-#[derive(TypeInfo)]
+#[derive(TypeInfo, Clone)]
 pub struct N {
     pub v: u32,
+}
+
+#[derive(TypeInfo, Clone)]
+pub struct HC<T>(pub T);
+
+#[derive(TypeInfo)]
+pub struct Cows<T: Clone + 'static> {
+    pub a: Cow<'static, N>,
+    pub b: Cow<'static, HC<T>>,
+    pub c: Cow<'static, Option<u32>>,
+    pub d: Option<Cow<'static, HC<u8>>>,
+    pub e: Cow<'static, str>,
 }
 
 #[derive(TypeInfo)]
@@ -339,6 +351,8 @@ roots! {
     Compacts,
     CompactsE,
     Bits,
+    Cows<u16>,
+    Cows<N>,
     UsesGBits,
     GBits<u32, Msb0>,
     UsesG,
